@@ -50,6 +50,10 @@ Definition model (i : input) : obs :=
 Definition varr_eqb (a b : varr) : bool :=
   dtype_eqb (v_dt a) (v_dt b) && natlist_eqb (v_shape a) (v_shape b) && zlist_eqb (v_flat a) (v_flat b).
 
+(* short constructors for the terms the harness prints (the record syntax {| .. |} is slow to elaborate) *)
+Definition mkd (b : dtype) (s : bool) (w : nat) : xdt := {| x_base := b; x_swap := s; x_width := w |}.
+Definition mkx (d : xdt) (sh : list nat) (fl : list Z) : xvarr := {| xv_dt := d; xv_shape := sh; xv_flat := fl |}.
+
 (* descriptors are compared structurally: a byte-order or width difference is a mismatch *)
 Definition xvarr_eqb (a b : xvarr) : bool :=
   xdt_same (xv_dt a) (xv_dt b) && natlist_eqb (xv_shape a) (xv_shape b) && zlist_eqb (xv_flat a) (xv_flat b).
